@@ -52,8 +52,11 @@ fn run_case(name: &str, npingers: usize, progs: Vec<Vec<String>>, loop_ops: Vec<
             calloop::verif::yield_point("loop.end");
         }));
     }
+    // handles a program leaves undropped are parked here and released only after the case is over
+    let leftovers: Arc<std::sync::Mutex<Vec<Ping>>> = Arc::new(std::sync::Mutex::new(Vec::new()));
     for (i, prog) in progs.into_iter().enumerate() {
         let mut handles = vec![ping.clone()];
+        let leftovers = leftovers.clone();
         joins.push(sched.spawn(i + 1, move || {
             for op in &prog {
                 match op.as_str() {
@@ -75,9 +78,9 @@ fn run_case(name: &str, npingers: usize, progs: Vec<Vec<String>>, loop_ops: Vec<
                     _ => {}
                 }
             }
-            // whatever the program left is kept alive until the thread ends — drop it silently now:
-            // the model's program makes every drop explicit, so nothing may be left
-            std::mem::forget(handles);
+            // whatever the program left stays alive for the rest of the case (the model's program makes every
+            // drop explicit); it is released after the loop is gone, so no descriptor leaks across cases
+            leftovers.lock().unwrap().extend(handles);
         }));
     }
     drop(ping); // the pinger threads hold the only handle instances
@@ -128,6 +131,7 @@ fn run_case(name: &str, npingers: usize, progs: Vec<Vec<String>>, loop_ops: Vec<
     for j in joins {
         let _ = j.join();
     }
+    drop(leftovers);
 }
 
 pub fn run() -> i32 {
